@@ -15,6 +15,7 @@ def instances(tier):
             L.append(I("l%d_%s" % (limit, "a" if append else "t"), trig="size", append=append, count=2, limit=limit,
                        sizes=(1, 2, 3), pre="PreB", maxrec=3 if tier == "quick" else 4, restart=1))
     L += [
+        I("l_huge", trig="size", count=2, limit=2000000000, sizes=(1, 3), pre="PreB", maxrec=3, restart=1),
         I("l2_restart2", trig="size", count=1, limit=2, sizes=(1, 2), pre="PreB", maxrec=4, restart=2),
         I("l1_delete", trig="size", roller="delete", count=0, limit=1, sizes=(1, 2), pre="PreB", maxrec=4, restart=1),
         # the size shown to the policy must stay exact when a roll fails and the file stays in place
